@@ -94,7 +94,7 @@ def build(ctx, target, op, nlri_mode):
     else:
         tlv = head(len(value)) + value
     attrs = dict(base)
-    if nlri_mode == 'mp':
+    if nlri_mode in ('mp', 'mp-after'):
         del attrs[3]
     order = sorted(k for k in attrs if k != code)
     out = [attrs[k] for k in order]
@@ -106,9 +106,13 @@ def build(ctx, target, op, nlri_mode):
         out.append([f, code, len(value2)] + value2)
     else:
         out.append(tlv)  # the corrupted attribute is LAST in the block so that an overrun leaves the block
-    if nlri_mode == 'mp':
+    if nlri_mode in ('mp', 'mp-after'):
         mp = K.attr(ctx, 'b.mp', 0x80, 14, K.be(2, 2) + [1, 16] + [0x20, 1] + [0] * 13 + [1] + [0] + [64, 0x20, 1, 0xd, 0xb8, 0, 0, 0, 1], ext=False)
-        out.insert(len(out) - (2 if op == 'dup' else 1), mp)
+        if nlri_mode == 'mp-after':
+            # type-code order: MP_REACH_NLRI (14) comes AFTER the malformed attribute; the routes it carries are withdrawn all the same
+            out.append(mp)
+        else:
+            out.insert(len(out) - (2 if op == 'dup' else 1), mp)
         body = K.body([], out, [])
     else:
         body = K.body([], out, [[24, 10, 0, 0]])
@@ -156,6 +160,10 @@ def h_corrupt(ctx, target, op, nlri_mode, sess='asn4'):
     if not announced:
         ctx.cover('treated-as-withdraw')
         ctx.check('routes-reported-withdrawn', len(withdrawn) == 1, sig='C08:%s:routes-vanished' % name, info={'withdrawn': withdrawn, 'what': malformed.what})
+        # the same through the real UpdateHandler on an Adj-RIB-In which HOLDS the prefix (announced by an earlier, well-formed
+        # UPDATE of the session): treat-as-withdraw removes it (RFC 7606 2: "as though ... listed in the WITHDRAWN ROUTES")
+        left = rib_in_after(ctx, neg, nlri_mode, msg)
+        ctx.check('adj-rib-in-forgets-the-route', left == [], sig='C08:%s:route-stays-in-adj-rib-in' % name, info={'adj-rib-in': left, 'what': malformed.what})
         return ('withdrawn', len(withdrawn))
     # routes ARE announced: only legal for attribute discard, with everything else intact
     have = set(int(k) for k in attrs.keys())
@@ -172,6 +180,36 @@ def h_corrupt(ctx, target, op, nlri_mode, sess='asn4'):
     ctx.check('no-announce-with-malformed-attribute', False,
               sig='C08:%s:%s:%s:%s' % (target, what, malformed.what, mark), info={'operator': op, 'nlri': nlri_mode, 'oracle': malformed.what, 'announced': announced, 'attributes': sorted(have)})
     return ('announced', mark, sorted(have))
+
+
+def rib_in_after(ctx, neg, nlri_mode, msg):
+    """Adj-RIB-In content after: a well-formed UPDATE announcing the prefix of the unit, then `msg`, both through the real
+    UpdateHandler.handle_async."""
+    from exabgp.rib.incoming import IncomingRIB
+    from exabgp.reactor.peer.handlers.update import UpdateHandler
+    base = [K.attr(ctx, 'g.origin', 0x40, 1, [0], ext=False), K.attr(ctx, 'g.aspath', 0x40, 2, [2, 1, 0, 0, 0xFD, 0xE9], ext=False)]
+    if nlri_mode == 'ip':
+        good = K.body([], base + [K.attr(ctx, 'g.nh', 0x40, 3, [192, 0, 2, 1], ext=False)], [[24, 10, 0, 0]])
+    else:
+        mp = K.attr(ctx, 'g.mp', 0x80, 14, K.be(2, 2) + [1, 16] + [0x20, 1] + [0] * 13 + [1] + [0] + [64, 0x20, 1, 0xd, 0xb8, 0, 0, 0, 1], ext=False)
+        good = K.body([], base + [mp], [])
+    first = Message.unpack(2, K.mk(ctx, good), neg)
+    rib = type('R', (), {})()
+    rib.incoming = IncomingRIB(True, set(neg.families), True)
+    holder = type('N', (), {})()
+    holder.rib = rib
+    holder.session = neg.neighbor.session
+    c = C2.Ctx2(holder, neg)
+    h = UpdateHandler()
+    for m in (first, msg):
+        coro = h.handle_async(c, m)
+        try:
+            coro.send(None)
+        except StopIteration:
+            pass
+    if len(list(rib.incoming.cached_routes())) == 0:
+        ctx.cover('adj-rib-in-emptied')
+    return [K.got_nlri(r.nlri) for r in rib.incoming.cached_routes()]
 
 
 def h_discard_ribin(ctx, target):
@@ -223,6 +261,13 @@ def units(tier):
                     continue
                 us.append(Unit('corrupt/%s/%s/%s' % (t, op, nm), lambda ctx, t=t, op=op, nm=nm: h_corrupt(ctx, t, op, nm),
                                must_cover=('malformed',) if not (t in ('as4-aggregator',) and False) else (), hash_const=True, reset=C2.reset_state, weight=5, max_seconds=300))
+    # MP_REACH_NLRI after the malformed attribute (the order senders which sort by type code produce)
+    for t in TARGETS:
+        if TARGETS[t][2] == 0 or t in ('as-path', 'as4-path', 'next-hop') or TARGETS[t][1] > 14:
+            continue
+        for op in ('empty', 'short'):
+            us.append(Unit('corrupt/%s/%s/mp-after' % (t, op), lambda ctx, t=t, op=op: h_corrupt(ctx, t, op, 'mp-after'),
+                           must_cover=('malformed',), hash_const=True, reset=C2.reset_state, weight=5, max_seconds=300))
     for t in ('aggregator', 'atomic-aggregate'):
         us.append(Unit('discard-ribin/%s' % t, lambda ctx, t=t: h_discard_ribin(ctx, t), hash_const=True, reset=C2.reset_state))
     return us
